@@ -169,7 +169,7 @@ fn gen_frontier(s: &mut Src<'_>) -> Frontier {
         amounts.push(a);
     }
     let total_in: u128 = amounts.iter().map(|a| u128::from(*a)).sum();
-    let kind_idx = s.weighted(&[8, 6, 6, 6, 8, 4, 4, 4, 3]);
+    let kind_idx = s.weighted(&[8, 6, 6, 6, 8, 4, 4, 4, 3, 4]);
     let kinds = [
         "exact-balance",
         "mint-by-one",
@@ -180,6 +180,7 @@ fn gen_frontier(s: &mut Src<'_>) -> Frontier {
         "duplicate-output-differing-hint",
         "same-coin-twice",
         "surplus",
+        "same-coin-twice-padded-amount",
     ];
     let kind = kinds[kind_idx];
     // outputs: (amount) list and fees
@@ -243,7 +244,7 @@ fn gen_frontier(s: &mut Src<'_>) -> Frontier {
             outs.push(a);
             outs.push(a);
         }
-        7 => {}
+        7 | 9 => {}
         _ => outs = split_amount(total_in / 2, s),
     }
     // ---- build
@@ -295,14 +296,29 @@ fn gen_frontier(s: &mut Src<'_>) -> Frontier {
         nodes.push(t.list(&[pa, phn, am, cl]));
         spends.push((parent, ph, amounts[i], pz, cl));
     }
-    if kind_idx == 7 {
-        // the same coin at a second position (with other conditions)
+    if kind_idx == 7 || kind_idx == 9 {
+        // the same coin at a second position (with other conditions); in the
+        // padded variant its amount is written with redundant leading zeros, up
+        // to the full 9 bytes an 8-byte value with sign byte may occupy
         let k = s.below(n_spends);
         let (parent, ph, am, pz, _) = spends[k];
         let cl = t.nil();
         let pa = t.atom(&parent);
         let phn = t.atom(&ph);
-        let amn = t.int(u128::from(am));
+        let amn = if kind_idx == 9 {
+            let canon = vcore::model::int::enc_u64(am);
+            let total = match s.below(4) {
+                0 => canon.len() + 1,
+                1 => 9,
+                2 => 10,
+                _ => canon.len() + 1 + s.below(9),
+            };
+            let mut b = vec![0u8; total.saturating_sub(canon.len()).max(1)];
+            b.extend_from_slice(&canon);
+            t.atom(&b)
+        } else {
+            t.int(u128::from(am))
+        };
         let node = t.list(&[pa, phn, amn, cl]);
         let pos = s.below(nodes.len() + 1);
         nodes.insert(pos, node);
@@ -526,7 +542,7 @@ pub fn property() -> Property {
                 run: case_parse_frontier,
                 inflight: false,
                 min_nontrivial: 20_000,
-                required_labels: &["accepted:exact-balance", "accepted:exact-fee", "rejected:mint-by-one", "rejected:fee-one-too-many", "rejected:wrapped-output-sum", "rejected:wrapped-fee-sum", "rejected:duplicate-output-differing-hint", "rejected:same-coin-twice", "accepted:sum-exceeds-64-bits", "spends>=1000"],
+                required_labels: &["accepted:exact-balance", "accepted:exact-fee", "rejected:mint-by-one", "rejected:fee-one-too-many", "rejected:wrapped-output-sum", "rejected:wrapped-fee-sum", "rejected:duplicate-output-differing-hint", "rejected:same-coin-twice", "rejected:same-coin-twice-padded-amount", "accepted:sum-exceeds-64-bits", "spends>=1000"],
             },
             SubCheck {
                 name: "parse-standard",
